@@ -552,3 +552,57 @@ def EX_BUFFER():
     s['max_parts'] = 10200
     s['documented_count'] = 10079
     return s
+
+
+# ---------------------------------------------------------------------------- enumerated two-layer topologies
+
+def _layer_options():
+    '''(tag, [device builders]) for one layer: a builder is (kind-specific dict without name/up).'''
+    one = [('H1', [dict(kind='handler', cycle=1)]), ('P1', [dict(kind='processor', cycle=1)]),
+           ('P2', [dict(kind='processor', cycle=2)]), ('B1', [dict(kind='buffer', capacity=1, delay=0)]),
+           ('B2d', [dict(kind='buffer', capacity=2, delay=1)]), ('PB2', [dict(kind='batcher', size=2)]),
+           ('U', [dict(kind='batcher', size=None)]), ('F', [dict(kind='flow')]), ('G', [dict(kind='gate', decider='all')])]
+    two = [('P1|P2', [dict(kind='processor', cycle=1), dict(kind='processor', cycle=2)]),
+           ('P2|P2', [dict(kind='processor', cycle=2), dict(kind='processor', cycle=2)]),
+           ('H1|B2', [dict(kind='handler', cycle=1), dict(kind='buffer', capacity=2, delay=0)]),
+           ('G>|G<', [dict(kind='gate', decider='q_ge'), dict(kind='gate', decider='q_lt')]),
+           ('P1|F', [dict(kind='processor', cycle=1), dict(kind='flow')]),
+           ('B1|PB2', [dict(kind='buffer', capacity=1, delay=0), dict(kind='batcher', size=2)])]
+    return one, two
+
+
+def topo_family(K=0, horizon=4, subset=None):
+    '''Source -> layer A -> layer B -> Sink with full connections between neighbouring layers; every pair of layer
+    options (one or two parallel devices of every kind).  Operations: failure/restore of the first processor, block/
+    unblock of the first device of layer B.  Yields specs.'''
+    one, two = _layer_options()
+    opts = one + two
+    n = 0
+    for ta, la in opts:
+        for tb, lb in opts:
+            n += 1
+            if subset is not None and n % subset[1] != subset[0]:
+                continue
+            batches = any(d['kind'] == 'batcher' for d in la + lb)
+            devs = [src('S', 0.5 if (n % 2) else 1, qualities=[1, 0, 1, 0, 0], values=[2, 1],
+                        **({'pattern': [None, 2, None]} if batches and (n % 3 == 0) else {}))]
+            prev = ['S']
+            procs = []
+            layers = []
+            for li, layer in (('a', la), ('b', lb)):
+                names = []
+                for i, d in enumerate(layer):
+                    dd = dict(d)
+                    dd['name'] = f'{li}{i + 1}'
+                    dd['up'] = list(prev)
+                    devs.append(dd)
+                    names.append(dd['name'])
+                    if dd['kind'] == 'processor':
+                        procs.append(dd['name'])
+                prev = names
+                layers.append(names)
+            devs.append(sink('K', prev, 1 if n % 4 == 0 else 0))
+            ops = [('block', layers[1][0], True), ('block', layers[1][0], False)]
+            if procs:
+                ops += [('fail', procs[0], 0), ('restore', procs[0])]
+            yield spec(f'TOPO[{ta}>{tb}|K{K}]', devs, horizon, ops, K)
